@@ -50,8 +50,8 @@ where
                 // hand side of a production and work backwards. While epsilon is true, any
                 // nonterminals we encounter have the Follow set of the production's rule added to
                 // them. As soon as we hit a token or a nonterminal that can't produce the empty
-                // string, we set epsilon to false. At that point, we simply add the first set of
-                // the following symbol to any nonterminals we encounter.
+                // string, we set epsilon to false. Independently of that, every nonterminal has
+                // the first sets of the symbols that can follow it in the production added.
                 let mut epsilon = true;
                 for sidx in (0..prod.len()).rev() {
                     let sym = prod[sidx];
@@ -72,19 +72,26 @@ where
                             if !firsts.is_epsilon_set(s_ridx) {
                                 epsilon = false;
                             }
-                            if sidx < prod.len() - 1 {
-                                match prod[sidx + 1] {
+                            // Add the first set of everything that can follow this symbol: the
+                            // symbols after it, up to and including the first one that cannot
+                            // produce the empty string.
+                            for nidx in sidx + 1..prod.len() {
+                                match prod[nidx] {
                                     Symbol::Token(nxt_tidx) => {
                                         if follows[usize::from(s_ridx)]
                                             .set(usize::from(nxt_tidx), true)
                                         {
                                             changed = true;
                                         }
+                                        break;
                                     }
                                     Symbol::Rule(nxt_ridx) => {
                                         if follows[usize::from(s_ridx)].or(firsts.firsts(nxt_ridx))
                                         {
                                             changed = true;
+                                        }
+                                        if !firsts.is_epsilon_set(nxt_ridx) {
+                                            break;
                                         }
                                     }
                                 }
